@@ -412,3 +412,50 @@ func init() { propC01.Register() }
 func TestC01_scalar(t *testing.T) { propC01.Run(t) }
 
 func FuzzC01_scalar(f *testing.F) { propC01.RunFuzz(f) }
+
+// FuzzC01_value: byte-level native fuzzing of the value text itself (coverage-guided through the option
+// splitter and the conversions). Fixed small definition; the fuzzer picks kind, spelling, mode and the value bytes.
+func FuzzC01_value(f *testing.F) {
+	st := evid.New("C01", "value-fuzz", "native fuzzing: (kind, form, mode, value bytes) against a fixed definition; same by-construction oracle as the rapid check")
+	f.Cleanup(func() { _ = st.Write() })
+	pool := append(append(append([]string{}, strValPool...), intValid...), intInvalid...)
+	pool = append(append(pool, floatValid...), floatInvalid...)
+	for i, v := range pool {
+		if v != "" {
+			f.Add(uint8(i), uint8(i/7), uint8(i/3), []byte(v))
+		}
+	}
+	kinds := []Kind{KString, KInt, KFloat, KStringOpt, KIntOpt, KFloatOpt}
+	f.Fuzz(func(t *testing.T, k uint8, form uint8, mode uint8, vb []byte) {
+		v := string(vb)
+		if v == "" || len(v) > 4096 {
+			return
+		}
+		kind := kinds[int(k)%len(kinds)]
+		spec := &ProgSpec{Mode: int(mode) % 3, Root: CmdSpec{Name: "prog", Opts: []OptSpec{
+			{Kind: kind, Name: "w", Aliases: []string{"focus"}, DefInt: 3, DefFloat: 1.5, DefStr: "dflt"},
+			{Kind: KBool, Name: "flag"}, {Kind: KString, Name: "other", DefStr: "o"}}, Cmds: []CmdSpec{{Name: "cmd"}}}}
+		c := C01Case{Spec: spec, Name: "w", V: BS(v), Level: "prog", Idx: []int{1}}
+		switch int(form) % 3 {
+		case 0:
+			c.Form = "attached"
+			c.Argv = Toks{"--flag", "--focus=" + v, "--other=x", "pos"}
+		case 1:
+			if strings.HasPrefix(v, "-") {
+				return
+			}
+			c.Form = "detached"
+			c.Argv = Toks{"--flag", "--focus", v, "--other=x", "pos"}
+		case 2:
+			if spec.Mode != ModeSingleDash {
+				return
+			}
+			c.Form = "sd-attached"
+			c.Argv = Toks{"--flag", "-w" + v, "--other=x", "pos"}
+		}
+		if err := propC01.safeCheck(c, st); err != nil {
+			path := evid.SaveFail("C01", "scalar", c, err.Error())
+			t.Fatalf("C01 violated: %v\ncase file: %s", err, path)
+		}
+	})
+}
